@@ -93,7 +93,8 @@ impl Property for P {
             Err(m) => { if std::env::var("VERIF_DEBUG").is_ok() { eprintln!("panic: {}", m); } out.push(-2) }
         }
         let plen = c.path.as_ref().map(|p| p.len()).unwrap_or(0);
-        let tag = format!("{}-len{}{}{}", if n_targets > 1 { "many" } else if n_targets == 1 { "one" } else { "none" }, plen.min(4),
+        let malformed = plen == 0 || !c.nodes.iter().any(|n| n.id == c.start) || c.path.iter().flatten().any(|e| e.tns == 0 && e.tname == 0);
+        let tag = format!("{}{}-len{}{}{}", if malformed { "trivial-malformed-" } else { "" }, if n_targets > 1 { "many" } else if n_targets == 1 { "one" } else { "none" }, plen.min(4),
             if c.path.iter().flatten().any(|e| e.inv) { "-inv" } else { "" },
             if c.path.iter().flatten().any(|e| e.reftype != 0 && !STD_TYPES.contains(&e.reftype)) { "-custom" } else { "" });
         let term = format!("(mk_case {} {} {} {})",
@@ -164,14 +165,42 @@ fn gen_case(r: &mut Rng) -> Case {
         let t = if r.chance(2, 3) { *r.pick(&[35i128, 47, 46, 44, 33]) } else { *r.pick(&types) };
         if s != d && t != 45 && !refs.contains(&(s, t, d)) { refs.push((s, t, d)); }
     }
-    let plen = match r.below(12) { 0 => 0, 1..=5 => 1, 6..=8 => 2, 9..=10 => 3, _ => 4 };
-    let path = if r.chance(1, 30) { None } else {
+    let plen = match r.below(12) { 0 => 0, 1..=4 => 1, 5..=8 => 2, 9..=10 => 3, _ => 4 };
+    let name_of_node = |id: i128| nodes.iter().find(|n| n.id == id).map(|n| (n.bns, n.bname));
+    // supertypes in the standard hierarchy (child -> parent)
+    let parent_of = |t: i128| -> Option<i128> { subtype_refs().iter().find(|e| e.2 == t).map(|e| e.0) };
+    let mut start = *r.pick(&ids);
+    let path = if r.chance(1, 30) { None } else if r.chance(2, 3) {
+        // guided: walk along existing references so that most elements match something
+        let mut cur = start;
+        let mut v = Vec::new();
+        for _ in 0..plen {
+            let inv = r.chance(1, 4);
+            let cands: Vec<(i128, i128)> = refs.iter().filter(|e| e.1 != 45 && if inv { e.2 == cur } else { e.0 == cur })
+                .map(|e| (e.1, if inv { e.0 } else { e.2 })).collect();
+            if cands.is_empty() { v.push(el(33, inv, true, 2 + r.below(3) as i128)); continue; }
+            let (t, next) = *r.pick(&cands);
+            let (tns, tname) = name_of_node(next).unwrap_or((0, 2));
+            // the type itself, a supertype (with or without subtypes), or null
+            let (reftype, sub) = match r.below(8) {
+                0 => (0, r.chance(1, 2)),
+                1..=3 => (t, r.chance(1, 2)),
+                4 => (33, true),
+                5 => (parent_of(t).unwrap_or(t), true),
+                6 => (parent_of(t).and_then(parent_of).unwrap_or(33), true),
+                _ => (parent_of(t).unwrap_or(33), false),
+            };
+            v.push(Elem { reftype, inv, sub, tns, tname });
+            cur = next;
+        }
+        Some(v)
+    } else {
         Some((0..plen).map(|_| Elem {
             reftype: match r.below(10) { 0 => 0, 1 => *r.pick(CUSTOM), 2 => *r.pick(&[1000i128, NS + 35, 2 * NS + 502, 24]), 3..=5 => 33, _ => *r.pick(STD_TYPES) },
             inv: r.chance(1, 4), sub: r.chance(2, 3), tns: if r.chance(1, 10) { 1 } else { 0 },
             tname: if r.chance(1, 25) { r.below(2) as i128 } else { 2 + r.below(3) as i128 } }).collect())
     };
-    let start = if r.chance(1, 20) { n1(77) } else { *r.pick(&ids) };
+    if r.chance(1, 20) { start = n1(77); }
     Case { nodes, refs, start, path }
 }
 
